@@ -37,6 +37,7 @@ func cmdFn(args []string) {
 	showScript := fs.Bool("script", false, "print failing SMT script")
 	tmo := fs.Int("t", 10, "solver timeout (s)")
 	maxPaths := fs.Int("max", 20000, "path cap")
+	iface := fs.String("iface", "", "verify against this interface contract (IfaceName.Method) instead of the function's own")
 	fs.Parse(args)
 	if fs.NArg() < 2 {
 		fmt.Fprintln(os.Stderr, "usage: govc fn [flags] <pkg-suffix> <key>")
@@ -54,6 +55,14 @@ func cmdFn(args []string) {
 		os.Exit(2)
 	}
 	ct := e.Env.Cfg.Contracts[fn]
+	if *iface != "" {
+		ct = e.Env.Cfg.IfaceContracts[*iface]
+		if ct == nil {
+			fmt.Fprintln(os.Stderr, "no such interface contract")
+			os.Exit(2)
+		}
+		e.IfaceImpls(ct)
+	}
 	start := time.Now()
 	fr := e.Env.VerifyFunc(fn, ct, *maxPaths)
 	fmt.Printf("%s: %d paths (capped=%v) in %.2fs\n", fn, len(fr.Paths), fr.Capped, time.Since(start).Seconds())
